@@ -1,7 +1,7 @@
 (* C19: the NAME law (every path the reader stores / outputs and every path of every event is the watched
    root followed by real, valid entry names) and the TYPE law (typed transcription of queue_events). *)
 Require Import WD.Base.Prelude WD.Base.BStr WD.Model.SubEvents WD.Proofs.SubEventsProofs
-               WD.Model.Emitter WD.Model.Fs WD.Model.Reader WD.Model.PathTypes.
+               WD.Model.Emitter WD.Model.Fs WD.Model.Reader WD.Proofs.ReaderFixProofs WD.Model.PathTypes.
 
 (* ================================================================== byte-string lemmas *)
 Definition nosep (n : bytes) : Prop := forall x, In x n -> N.eqb x sep = false.
@@ -592,18 +592,18 @@ Section ReaderInv.
   Notation PathInv := (path_inv (c_root C)).
 
   Lemma pathinv_init : PathInv rinit0.
-  Proof. constructor; intros ? ? []. Qed.
+  Proof. constructor; [intros ? ? [] | intros ? ? [] | intros ? ? [] | intros ? ? H; cbn in H; discriminate H]. Qed.
 
   Lemma raw_ok_rooted x : raw_ok root x -> rooted root (r_path x).
   Proof. intros [H|[H _]]; [now apply below_rooted | exact H]. Qed.
 
   Lemma bump_inv r : PathInv r -> PathInv (bump r).
-  Proof. intros [H1 H2 H3]. constructor; assumption. Qed.
+  Proof. intros [H1 H2 H3 H4]. constructor; assumption. Qed.
 
   Lemma add_watch_inv r k t p r' k' wd :
     PathInv r -> rooted root p -> add_watch C r k t p = Some (r', k', wd) -> PathInv r'.
   Proof.
-    intros [H1 H2 H3] Hp H. unfold add_watch in H.
+    intros [H1 H2 H3 H4] Hp H. unfold add_watch in H.
     destruct (mem_nat (calls r) (c_faults C)); [discriminate|].
     destruct (kadd_watch k t p (c_mask C)) as [[k1 w1]|]; [|discriminate].
     inversion H; subst; clear H. constructor; cbn.
@@ -611,6 +611,7 @@ Section ReaderInv.
     - intros p0 wd0 Hin. apply in_aset in Hin as [Hin|[_ [->|E]]]; eauto.
       apply beqb_eq in E. now subst.
     - exact H3.
+    - exact H4.
   Qed.
 
   Lemma walk_rooted t : forall p r ds fs,
@@ -704,7 +705,7 @@ Section ReaderInv.
     intros Hs Hd. induction keys as [|[p w] keys IH]; intros r Hi; cbn [rekey_loop]; [exact Hi|].
     destruct (starts (src ++ [sep]) p) eqn:Est; [|now apply IH].
     destruct (alookup beqb p (wfp r)) as [wd|] eqn:El; [|now apply IH].
-    apply IH. destruct Hi as [H1 H2 H3].
+    apply IH. destruct Hi as [H1 H2 H3 H4].
     apply alookup_in in El as [p' [Hin Hk]]. apply beqb_eq in Hk. subst p'.
     assert (Hnp : rooted root (replace_first src dst p)) by (apply rekey_rooted; eauto).
     constructor; cbn.
@@ -714,6 +715,7 @@ Section ReaderInv.
       + exact Hnp.
       + apply beqb_eq in E. now subst.
     - exact H3.
+    - exact H4.
   Qed.
 
   Lemma add_dirs_inv t : forall ps r k r' k',
@@ -733,12 +735,14 @@ Section ReaderInv.
     unfold noparent. intros H. repeat (apply andb_true_iff in H as [H ?]). now apply negb_true_iff in H.
   Qed.
 
-  Lemma read_one_inv t r k acc e r' k' acc' :
+  (* the loop body after the head (the whole body of the pinned code); a record for an unknown descriptor is skipped *)
+  Lemma read_one_body_inv t r k acc e r' k' acc' :
     fs_names_ok t -> PathInv r -> Forall (raw_ok root) acc -> kraw_ok e ->
-    read_one C t (r, k, acc) e = Done (r', k', acc') -> PathInv r' /\ Forall (raw_ok root) acc'.
+    read_one_body C t (r, k, acc) e = Done (r', k', acc') -> PathInv r' /\ Forall (raw_ok root) acc'.
   Proof.
-    intros Hfs Hi Ha He H. unfold read_one in H.
-    destruct (alookup N.eqb (k_wd e) (pfw r)) as [wd_path|] eqn:Ewd; [|discriminate].
+    intros Hfs Hi Ha He H. unfold read_one_body in H.
+    destruct (alookup N.eqb (k_wd e) (pfw r)) as [wd_path|] eqn:Ewd;
+      [|destruct (c_fix_moveout C); [inversion H; subst; split; assumption | discriminate]].
     assert (Hwd : rooted root wd_path).
     { apply alookup_in in Ewd as [wd' [Hin _]]. eapply pi_pfw; eauto. }
     set (src_path := match k_name e with [] => wd_path | _ :: _ => join wd_path (k_name e) end) in *.
@@ -754,8 +758,12 @@ Section ReaderInv.
     match type of H with context [match ?X with pair _ _ => _ end] => destruct X as [[r1 k1] ev1] eqn:EX end.
     assert (H1 : PathInv r1 /\ raw_ok root ev1).
     { destruct (is_moved_from (k_mask e)).
-      - inversion EX; subst; clear EX. split; [|exact Hev]. destruct Hi as [P1 P2 P3]. constructor; cbn; eauto.
-        intros c p Hin. apply in_aset in Hin as [Hin|[-> _]]; eauto.
+      - inversion EX; subst; clear EX. split; [|exact Hev]. destruct Hi as [P1 P2 P3 P4].
+        constructor; cbn; [eauto | eauto | |].
+        + intros c p Hin. apply in_aset in Hin as [Hin|[-> _]]; eauto.
+        + (* the new candidate is this record's src_path *)
+          intros c p Hp. destruct (c_fix_moveout C && c_recursive C && is_directory (k_mask e)); [|eauto].
+          inversion Hp; subst. exact Hsrc.
       - destruct (is_moved_to (k_mask e)) eqn:Emt; [|inversion EX; subst; split; assumption].
         set (ev' := {| r_wd := k_wd e; r_mask := k_mask e; r_cookie := k_cookie e; r_name := k_name e;
                        r_path := join wd_path (k_name e) |}) in *.
@@ -771,14 +779,16 @@ Section ReaderInv.
             assert (Hms : rooted root msrc).
             { apply alookup_in in Emv as [c' [Hin _]]. eapply pi_mvf; eauto. }
             assert (Hi' : PathInv {| wfp := aset beqb src_path mwd (aremove beqb msrc (wfp r));
-                                     pfw := aset N.eqb mwd src_path (pfw r); mvf := mvf r; calls := calls r |}).
-            { destruct Hi as [P1 P2 P3]. constructor; cbn.
+                                     pfw := aset N.eqb mwd src_path (pfw r); mvf := mvf r; calls := calls r;
+                                     pend := pend r |}).
+            { destruct Hi as [P1 P2 P3 P4]. constructor; cbn.
               - intros wd0 p0 Hin0. apply in_aset in Hin0 as [Hin0|[-> _]]; eauto.
               - intros p0 wd0 Hin0. apply in_aset in Hin0 as [Hin0|[_ [->|E]]].
                 + apply in_aremove in Hin0. eauto.
                 + exact Hsrc.
                 + apply beqb_eq in E. now subst.
-              - exact P3. }
+              - exact P3.
+              - exact P4. }
             destruct (c_recursive C); [now apply rekey_loop_inv | exact Hi'].
           * destruct (c_fix_movein C && c_recursive C && is_directory (k_mask e) && fisdir src_path t).
             -- destruct (add_dirs C r k t (src_path :: walk_dirs t src_path)) as [r0 k0] eqn:Ead.
@@ -795,12 +805,13 @@ Section ReaderInv.
     assert (Hi2 : PathInv r2).
     { destruct (is_ignored (k_mask e)); [|inversion E2; subst; exact Hi1].
       destruct (alookup N.eqb (k_wd e) (pfw r1)) as [path|]; [|discriminate].
-      assert (Hrp : PathInv {| wfp := wfp r1; pfw := aremove N.eqb (k_wd e) (pfw r1); mvf := mvf r1; calls := calls r1 |}).
-      { destruct Hi1 as [P1 P2 P3]. constructor; cbn; eauto. intros wd0 p0 Hin0. apply in_aremove in Hin0. eauto. }
-      cbn [wfp pfw mvf calls] in E2.
+      assert (Hrp : PathInv {| wfp := wfp r1; pfw := aremove N.eqb (k_wd e) (pfw r1); mvf := mvf r1; calls := calls r1;
+                               pend := pend r1 |}).
+      { destruct Hi1 as [P1 P2 P3 P4]. constructor; cbn; eauto. intros wd0 p0 Hin0. apply in_aremove in Hin0. eauto. }
+      cbn [wfp pfw mvf calls pend] in E2.
       destruct (alookup beqb path (wfp r1)) as [w|].
       - destruct (N.eqb w (k_wd e)); inversion E2; subst; [|exact Hrp].
-        destruct Hrp as [P1 P2 P3]. constructor; cbn in *; eauto. intros p0 wd0 Hin0. apply in_aremove in Hin0. eauto.
+        destruct Hrp as [P1 P2 P3 P4]. constructor; cbn in *; eauto. intros p0 wd0 Hin0. apply in_aremove in Hin0. eauto.
       - destruct (c_fix_ignored C); [|discriminate]. inversion E2; subst. exact Hrp. }
     assert (Hacc2 : Forall (raw_ok root) (acc ++ [ev1])).
     { apply Forall_app. split; [exact Ha | constructor; [exact Hev1 | constructor]]. }
@@ -811,6 +822,44 @@ Section ReaderInv.
         * eapply add_watch_inv; [exact Hi2 | | exact Eaw]. now apply raw_ok_rooted.
       + inversion H; subst. split; [now apply bump_inv | exact Hacc2].
     - inversion H; subst. split; assumption.
+  Qed.
+
+  (* _forget_tree only removes entries *)
+  Lemma forget_tree_inv p : forall keys r k r' k',
+    PathInv r -> forget_tree keys p r k = (r', k') -> PathInv r'.
+  Proof.
+    induction keys as [|[q x] keys IH]; intros r k r' k' Hi H; cbn [forget_tree] in H.
+    - now inversion H; subst.
+    - destruct (beqb q p || starts (p ++ [sep]) q); [|eauto].
+      destruct (alookup beqb q (wfp r)) as [wd|]; [|eauto].
+      assert (Hr1 : PathInv {| wfp := aremove beqb q (wfp r); pfw := pfw r; mvf := mvf r; calls := calls r; pend := pend r |}).
+      { destruct Hi as [P1 P2 P3 P4]. constructor; cbn; eauto. intros p0 wd0 Hin0. apply in_aremove in Hin0. eauto. }
+      destruct (alookup N.eqb wd (pfw r)) as [q'|]; [|eauto].
+      destruct (beqb q' q); [|eauto].
+      eapply IH; [|exact H]. cbn [wfp pfw mvf calls pend].
+      destruct Hr1 as [P1 P2 P3 P4]. constructor; cbn in *; eauto. intros wd0 p0 Hin0. apply in_aremove in Hin0. eauto.
+  Qed.
+
+  (* the head of the loop body: the candidate is dropped; on a mismatch the moved-out tree is forgotten *)
+  Lemma settle_pending_inv r k e r' k' : PathInv r -> settle_pending C r k e = (r', k') -> PathInv r'.
+  Proof.
+    intros Hi H. unfold settle_pending in H.
+    destruct (c_fix_moveout C); [|now inversion H; subst].
+    destruct (pend r) as [[c p]|]; [|now inversion H; subst].
+    assert (Hr0 : PathInv {| wfp := wfp r; pfw := pfw r; mvf := mvf r; calls := calls r; pend := None |}).
+    { destruct Hi as [P1 P2 P3 P4]. constructor; cbn; eauto. intros ? ? Hx; discriminate Hx. }
+    destruct (is_moved_to (k_mask e) && N.eqb (k_cookie e) c && amem N.eqb (k_wd e) (pfw r)); [now inversion H; subst|].
+    eapply forget_tree_inv; eauto.
+  Qed.
+
+  Lemma read_one_inv t r k acc e r' k' acc' :
+    fs_names_ok t -> PathInv r -> Forall (raw_ok root) acc -> kraw_ok e ->
+    read_one C t (r, k, acc) e = Done (r', k', acc') -> PathInv r' /\ Forall (raw_ok root) acc'.
+  Proof.
+    intros Hfs Hi Ha He H. unfold read_one in H.
+    destruct (settle_pending C r k e) as [r0 k0] eqn:Es.
+    eapply read_one_body_inv; [exact Hfs | | exact Ha | exact He | exact H].
+    eapply settle_pending_inv; eauto.
   Qed.
 
   Theorem read_batch_inv t : forall b r k acc r' k' acc',
@@ -950,7 +999,15 @@ Proof.
     + inversion H; subst; cbn. now apply frename_names.
 Qed.
 
-(* ---------------------------------------------------------------- the reader never touches the kernel queue *)
+(* ---------------------------------------------------------------- the reader and the kernel queue: the only records
+   the reader causes are the IN_IGNORED records of inotify_rm_watch in _forget_tree (empty name, non-parent mask) *)
+Lemma krm_watch_ok k wd : kqueue_ok k -> kqueue_ok (krm_watch k wd).
+Proof.
+  intros Hk. unfold krm_watch. destruct (find (fun w => N.eqb (kw_wd w) wd) (k_watches k)); [|exact Hk].
+  unfold kqueue_ok. cbn [k_queue]. apply kpush_ok; [exact Hk|].
+  right. split; [reflexivity | vm_compute; reflexivity].
+Qed.
+
 Section ReaderQueue.
   Variable C : cfg.
 
@@ -996,11 +1053,13 @@ Section ReaderQueue.
       + now inversion H; subst.
   Qed.
 
-  Lemma read_one_queue t r k acc e r' k' acc' :
-    read_one C t (r, k, acc) e = Done (r', k', acc') -> k_queue k' = k_queue k.
+  (* the loop body after the head leaves the queue alone *)
+  Lemma read_one_body_queue t r k acc e r' k' acc' :
+    read_one_body C t (r, k, acc) e = Done (r', k', acc') -> k_queue k' = k_queue k.
   Proof.
-    intros H. unfold read_one in H.
-    destruct (alookup N.eqb (k_wd e) (pfw r)) as [wd_path|]; [|discriminate].
+    intros H. unfold read_one_body in H.
+    destruct (alookup N.eqb (k_wd e) (pfw r)) as [wd_path|];
+      [|destruct (c_fix_moveout C); [now inversion H; subst | discriminate]].
     match type of H with context [match ?X with pair _ _ => _ end] => destruct X as [[r1 k1] ev1] eqn:EX end.
     assert (H1 : k_queue k1 = k_queue k).
     { repeat match type of EX with
@@ -1019,13 +1078,41 @@ Section ReaderQueue.
     - inversion H; subst. exact H1.
   Qed.
 
-  Lemma read_batch_queue t : forall b r k acc r' k' acc',
-    read_batch C t (r, k, acc) b = Done (r', k', acc') -> k_queue k' = k_queue k.
+  Lemma forget_tree_kq p : forall keys r k r' k',
+    kqueue_ok k -> forget_tree keys p r k = (r', k') -> kqueue_ok k'.
   Proof.
-    induction b as [|e b IH]; intros r k acc r' k' acc' H; cbn [read_batch] in H.
+    induction keys as [|[q x] keys IH]; intros r k r' k' Hk H; cbn [forget_tree] in H.
+    - now inversion H; subst.
+    - destruct (beqb q p || starts (p ++ [sep]) q); [|eauto].
+      destruct (alookup beqb q (wfp r)) as [wd|]; [|eauto].
+      destruct (alookup N.eqb wd (pfw r)) as [q'|]; [|eauto].
+      destruct (beqb q' q); [|eauto].
+      eapply IH; [|exact H]. now apply krm_watch_ok.
+  Qed.
+
+  Lemma settle_pending_kq r k e r' k' : kqueue_ok k -> settle_pending C r k e = (r', k') -> kqueue_ok k'.
+  Proof.
+    intros Hk H. unfold settle_pending in H.
+    destruct (c_fix_moveout C); [|now inversion H; subst].
+    destruct (pend r) as [[c p]|]; [|now inversion H; subst].
+    destruct (is_moved_to (k_mask e) && N.eqb (k_cookie e) c && amem N.eqb (k_wd e) (pfw r)); [now inversion H; subst|].
+    eapply forget_tree_kq; eauto.
+  Qed.
+
+  Lemma read_one_kq t r k acc e r' k' acc' :
+    kqueue_ok k -> read_one C t (r, k, acc) e = Done (r', k', acc') -> kqueue_ok k'.
+  Proof.
+    intros Hk H. unfold read_one in H. destruct (settle_pending C r k e) as [r0 k0] eqn:Es.
+    apply read_one_body_queue in H. unfold kqueue_ok. rewrite H. eapply settle_pending_kq; eauto.
+  Qed.
+
+  Lemma read_batch_kq t : forall b r k acc r' k' acc',
+    kqueue_ok k -> read_batch C t (r, k, acc) b = Done (r', k', acc') -> kqueue_ok k'.
+  Proof.
+    induction b as [|e b IH]; intros r k acc r' k' acc' Hk H; cbn [read_batch] in H.
     - now inversion H; subst.
     - destruct (read_one C t (r, k, acc) e) as [[[r1 k1] acc1]|] eqn:E; [|discriminate].
-      apply IH in H. apply read_one_queue in E. congruence.
+      eapply IH; [|exact H]. eapply read_one_kq; eauto.
   Qed.
 End ReaderQueue.
 
@@ -1364,13 +1451,13 @@ Section PipeInv.
         [|discriminate].
       assert (Hb : Forall kraw_ok (firstn n (k_queue (p_k s)))) by now apply Forall_firstn'.
       destruct (read_batch_inv _ Hne Hsep _ _ _ _ _ _ _ _ I1 I3 (Forall_nil _) Hb E) as [Hr' Hevs].
-      apply read_batch_queue in E. cbn [k_queue] in E.
+      assert (Hkq : kqueue_ok k').
+      { eapply read_batch_kq; [|exact E]. unfold kqueue_ok. cbn [k_queue]. now apply Forall_skipn'. }
       destruct (number (pc_reader P) (p_next s) evs) as [nevs tbl] eqn:En.
       destruct (gstep (pc_delay P) (p_buf s) (RRead nevs)) as [b1|] eqn:Eg;
         inversion H; subst; clear H; [|constructor; assumption].
       destruct (number_ids _ _ _ _ _ En) as [Hid1 Hid2].
       constructor; cbn; try assumption.
-      + unfold kqueue_ok. rewrite E. now apply Forall_skipn'.
       + intros i x Hin. apply in_app_iff in Hin as [Hin|Hin]; [eauto|].
         eapply number_in in Hin; [|exact En]. rewrite Forall_forall in Hevs. now apply Hevs.
       + intros i x Hin. apply in_app_iff in Hin as [Hin|Hin].
@@ -1633,7 +1720,7 @@ Definition zhong_ : bytes := [228; 184; 173]%N.       (* "中" *)
 
 Definition P_ : pcfg :=
   {| pc_reader := {| c_recursive := true; c_mask := WATCHDOG_ALL; c_root := rt_; c_fix_ignored := true;
-                     c_fix_movein := true; c_fix_simulate := true; c_faults := [] |};
+                     c_fix_movein := true; c_fix_simulate := true; c_fix_moveout := true; c_faults := [] |};
      pc_full := false; pc_filter := None; pc_delay := 5 |}.
 Definition w_ : world := {| w_fs := [{| f_path := rt_; f_ino := 1; f_dir := true |}]; w_next_ino := 2 |}.
 Definition h_ : list action :=
@@ -1641,3 +1728,82 @@ Definition h_ : list action :=
    AOp (Rename (rt_ ++ relsuffix [eacute_]) (rt_ ++ relsuffix [zhong_])); ARead 10; ATick 100;
    AEmit; AEmit; AEmit; AEmit].
 
+
+(* ================================================================== repair F10: a directory that left the tree is forgotten *)
+Lemma aremove_notin (q : bytes) (w : N) m : ~ In (q, w) (aremove beqb q m).
+Proof.
+  induction m as [|[a b] m IH]; cbn; [tauto|]. destruct (beqb q a) eqn:E; [exact IH|].
+  intros [H|H]; [inversion H; subst; rewrite beqb_refl in E; discriminate | now apply IH].
+Qed.
+
+Lemma alookup_none_notin (q : bytes) (w : N) m : alookup beqb q m = None -> ~ In (q, w) m.
+Proof.
+  induction m as [|[a b] m IH]; cbn; [tauto|]. destruct (beqb q a) eqn:E; [discriminate|].
+  intros H [Hin|Hin]; [inversion Hin; subst; rewrite beqb_refl in E; discriminate | now apply IH].
+Qed.
+
+Lemma forget_tree_wfp_sub p : forall keys r k r' k',
+  forget_tree keys p r k = (r', k') -> forall x, In x (wfp r') -> In x (wfp r).
+Proof.
+  induction keys as [|[q0 x0] keys IH]; intros r k r' k' H x Hx; cbn [forget_tree] in H.
+  - now inversion H; subst.
+  - destruct (beqb q0 p || starts (p ++ [sep]) q0); [|eauto].
+    destruct (alookup beqb q0 (wfp r)) as [wd|]; [|eauto].
+    destruct (alookup N.eqb wd (pfw r)) as [q'|]; [destruct (beqb q' q0)|];
+      eapply IH in H; try exact Hx; cbn in H; eapply in_aremove; exact H.
+Qed.
+
+(* every key of the snapshot that is the path or lies below it is gone afterwards *)
+Lemma forget_tree_gone p : forall keys r k r' k',
+  forget_tree keys p r k = (r', k') ->
+  forall q w x, In (q, w) (wfp r') -> In (q, x) keys -> beqb q p || starts (p ++ [sep]) q = false.
+Proof.
+  induction keys as [|[q0 x0] keys IH]; intros r k r' k' H q w x Hq Hk; [contradiction|].
+  destruct (beqb q p || starts (p ++ [sep]) q) eqn:Em; [exfalso | reflexivity].
+  cbn [forget_tree] in H. destruct Hk as [Hk|Hk].
+  - inversion Hk; subst q0 x0. rewrite Em in H.
+    destruct (alookup beqb q (wfp r)) as [wd|] eqn:El.
+    + assert (Hsub : In (q, w) (aremove beqb q (wfp r))).
+      { destruct (alookup N.eqb wd (pfw r)) as [q'|]; [destruct (beqb q' q)|];
+          eapply forget_tree_wfp_sub in H; try exact Hq; exact H. }
+      exact (aremove_notin _ _ _ Hsub).
+    + eapply forget_tree_wfp_sub in H; [|exact Hq]. exact (alookup_none_notin _ _ _ El H).
+  - assert (Hf : beqb q p || starts (p ++ [sep]) q = false).
+    { destruct (beqb q0 p || starts (p ++ [sep]) q0); [|eapply IH; eauto].
+      destruct (alookup beqb q0 (wfp r)) as [wd|]; [|eapply IH; eauto].
+      destruct (alookup N.eqb wd (pfw r)) as [q'|]; [destruct (beqb q' q0)|]; eapply IH; eauto. }
+    congruence.
+Qed.
+
+(* The head of the loop body, current code: when the record after a directory IN_MOVED_FROM is not its IN_MOVED_TO on a known descriptor, no
+   key of _wd_for_path is the moved-out path or lies below it any more, and nothing is remembered *)
+Theorem settle_pending_forgotten C r k e c p r' k' :
+  c_fix_moveout C = true -> pend r = Some (c, p) ->
+  is_moved_to (k_mask e) && N.eqb (k_cookie e) c && amem N.eqb (k_wd e) (pfw r) = false ->
+  settle_pending C r k e = (r', k') ->
+  pend r' = None /\
+  (forall x, In x (wfp r') -> In x (wfp r)) /\
+  (forall q w, In (q, w) (wfp r') -> beqb q p || starts (p ++ [sep]) q = false).
+Proof.
+  intros Hf Hp Hm H. rewrite (settle_pending_forget C r k e c p Hf Hp Hm) in H.
+  split; [|split].
+  - apply forget_tree_sub in H as (_ & _ & _ & H). exact H.
+  - intros x Hx. eapply forget_tree_wfp_sub in H; [|exact Hx]. exact H.
+  - intros q w Hq. eapply forget_tree_gone; [exact H | exact Hq|].
+    eapply forget_tree_wfp_sub in H; [|exact Hq]. exact H.
+Qed.
+
+(* data of the move-out example: /w watched, /o outside *)
+Definition out_ : bytes := [47; 111]%N.               (* "/o" *)
+Definition Pm_ (fix_moveout : bool) : pcfg :=
+  {| pc_reader := {| c_recursive := true; c_mask := WATCHDOG_ALL; c_root := rt_; c_fix_ignored := true;
+                     c_fix_movein := true; c_fix_simulate := true; c_fix_moveout := fix_moveout; c_faults := [] |};
+     pc_full := false; pc_filter := None; pc_delay := 5 |}.
+Definition wm_ : world :=
+  {| w_fs := [{| f_path := rt_; f_ino := 1; f_dir := true |}; {| f_path := out_; f_ino := 2; f_dir := true |}];
+     w_next_ino := 3 |}.
+Definition hm_ : list action :=
+  [AOp (Mkdir (rt_ ++ relsuffix [eacute_])); ARead 10;
+   AOp (Rename (rt_ ++ relsuffix [eacute_]) (out_ ++ relsuffix [eacute_])); ARead 10;
+   AOp (Touch (out_ ++ relsuffix [eacute_; xff_])); ARead 10; ATick 100;
+   AEmit; AEmit; AEmit; AEmit; AEmit; AEmit; AEmit; AEmit].
